@@ -113,6 +113,7 @@ func (tb *TupleBuilder) BuildPermissive(ctx context.Context, pool pool.BuffPool)
 		savings     int64 // inlineSize - outOfBandSize
 	}
 	totalSize := tb.inlineSize
+	outOfBandSet := make(map[int]bool)
 	if totalSize > int64(tb.tupleLengthTarget) {
 		// Collect all adaptive columns that would benefit from out-of-band storage,
 		// then sort by savings descending so we move the largest values out-of-band first.
@@ -139,7 +140,6 @@ func (tb *TupleBuilder) BuildPermissive(ctx context.Context, pool pool.BuffPool)
 		})
 
 		// Convert to out-of-band in order of largest savings until we're under the target.
-		outOfBandSet := make(map[int]bool)
 		for _, c := range candidates {
 			adaptiveValue := AdaptiveValue(tb.fields[c.columnIndex])
 			if !adaptiveValue.IsOutOfBand() {
@@ -156,17 +156,20 @@ func (tb *TupleBuilder) BuildPermissive(ctx context.Context, pool pool.BuffPool)
 			}
 		}
 
-		// Ensure any remaining adaptive columns that were not selected for out-of-band are inline.
-		for i, descType := range tb.Desc.Types {
-			if IsAdaptiveEncoding(descType.Enc) && !outOfBandSet[i] {
-				adaptiveValue := AdaptiveValue(tb.fields[i])
-				if adaptiveValue.IsOutOfBand() {
-					inline, err := adaptiveValue.convertToInline(ctx, tb.vs, nil)
-					if err != nil {
-						return nil, err
-					}
-					tb.PutRaw(i, inline)
+	}
+
+	// Ensure any adaptive column that was not selected for out-of-band storage is inline, also when the row fits its
+	// target without any conversion: the stored form of a row must depend on its values only, not on whether a value
+	// reached the builder as bytes or as a reference to bytes already in the store.
+	for i, descType := range tb.Desc.Types {
+		if IsAdaptiveEncoding(descType.Enc) && !outOfBandSet[i] {
+			adaptiveValue := AdaptiveValue(tb.fields[i])
+			if adaptiveValue.IsOutOfBand() {
+				inline, err := adaptiveValue.convertToInline(ctx, tb.vs, nil)
+				if err != nil {
+					return nil, err
 				}
+				tb.PutRaw(i, inline)
 			}
 		}
 	}
